@@ -52,7 +52,7 @@ def run(args):
     prof, doc = profile()
     if args.tier == 'thorough':
         # a few large single batches (tens of thousands of rows, skewed joint values): thresholds far from the small-data boundaries
-        prof = dict(prof, minibatch=prof['minibatch'] + [70000], colopts={'kind': ['lowcard', 'balanced-binary', 'noisy-label', 'sparse', 'constant', 'midcard', 'id', 'numeric']})
+        prof = dict(prof, minibatch=prof['minibatch'] + [70000])
     return pipe_common.run_check('C05', args, prof, RULE, signature, nontrivial, batch=96,
                                  extra_evidence=lambda rep: {'documented_heuristics_found': doc},
                                  assumptions=['the input dimension of the quantifier is sampled by the workload generator, not enumerated',
